@@ -115,9 +115,16 @@ class Kit:
         """run the real TCPRequestHandler over scripted recv() chunks -> (bytes sent, send calls)"""
         from frappy.protocol.interface.tcp import TCPRequestHandler
         sock = FakeSock(chunks)
-        with contextlib.redirect_stdout(io.StringIO()):
-            TCPRequestHandler(sock, ('127.0.0.1', 1), FakeTcpServer(self))
+        quiet_handler()
+        TCPRequestHandler(sock, ('127.0.0.1', 1), FakeTcpServer(self))
         return sock.out, sock.sends
+
+
+def quiet_handler():
+    """the request handler print()s tracebacks of internal errors: shadow print in that module
+    (contextlib.redirect_stdout is process global and therefore unusable with several threads)"""
+    import frappy.protocol.interface.handler as h
+    h.print = lambda *a, **k: None
 
 
 def parse_lines(out):
